@@ -345,9 +345,28 @@ pub fn child(tier: Tier, profile: &str) -> i32 {
     util::quiet();
     dets::start_watchdog(10, on_hang);
     let detectors = dets::all();
-    let c = corpus::build(tier);
-    let sigma: Vec<(String, String)> = c.progs.iter().map(|p| (p.tag.clone(), render_l1(&p.toks).0)).collect();
-    let (mut vs, mut calls, mut accepted, mut outcomes) = sweep(&sigma, &detectors, profile, false);
+    let mut vs: Vec<Value> = Vec::new();
+    let mut calls = 0u64;
+    let mut accepted = 0u64;
+    let mut outcomes: HashSet<u64> = HashSet::new();
+    let mut sigma_n = 0usize;
+    corpus::stream(tier, &mut |chunk| {
+        let sigma: Vec<(String, String)> = chunk.iter().map(|p| (p.tag.clone(), render_l1(&p.toks).0)).collect();
+        drop(chunk);
+        sigma_n += sigma.len();
+        let (v1, c1, a1, o1) = sweep(&sigma, &detectors, profile, false);
+        // keep at most a few witnesses per site
+        for v in v1 {
+            let site = v["site"].as_str().unwrap_or("").to_string();
+            let same = vs.iter().filter(|x| x["site"].as_str() == Some(site.as_str())).count();
+            if same < 3 {
+                vs.push(v);
+            }
+        }
+        calls += c1;
+        accepted += a1;
+        outcomes.extend(o1);
+    });
     let tot = totality_texts(tier);
     let (v2, c2, a2, o2) = sweep(&tot, &detectors, profile, false);
     vs.extend(v2);
@@ -370,7 +389,7 @@ pub fn child(tier: Tier, profile: &str) -> i32 {
         "violations": vs,
         "calls": calls,
         "accepted_programs": accepted,
-        "sigma_programs": sigma.len(),
+        "sigma_programs": sigma_n,
         "totality_programs": tot.len(),
         "totality_rejected_by_parser": rejected_tot,
         "distinct_outcomes": outcomes.len(),
